@@ -22,7 +22,7 @@ THEOREMS = [
     "order_sorted_perm", "order_limit_slice", "topn_eq_order_limit", "limit_count", "limit_subset",
     "absent_limit", "limit_exec_spec", "topn_absent_limit", "merge_iter_sorted", "memtable_sorted",
     "compaction_sorted_perm", "merge_heap_bounds", "merge_heap_sorted", "topn_heap_eq_order_limit",
-    "concat_scan_sorted_iff", "table_scan_sorted", "two_rowsets_scan_sorted", "scan_contract_sorted", "order_analysis_sound",
+    "concat_scan_sorted_iff", "table_scan_sorted", "table_scan_sorted_under_range", "two_rowsets_scan_sorted", "scan_contract_sorted", "order_analysis_sound",
     "useless_order_sound_partial", "useless_order_sound", "reachable_rowsets_sorted", "useless_order_sound_reachable",
 ]
 
@@ -876,7 +876,7 @@ def finish_reports(ck, T, binname):
 
 
 def run(ck):
-    n = 420 if ck.quick() else 3000
+    n = 420 if ck.quick() else 2500
     run_translators(ck)
     bad = vlib.step_lean(ck, "RlModel.Thm.C12", THEOREMS, extra_targets=["drv_c12"])
     ok, log = vlib.step_cargo(ck, ["c12"])
